@@ -1206,6 +1206,8 @@ class Interp:
             def append(it, node, x, obj=obj, recv=e.value, env=env):
                 n = obj.length
                 new = SymSeq(simp(n + 1), lambda j, obj=obj, n=n, x=x: _ite(simp(j == n), x, obj.get(j)), "list")
+                if hasattr(obj, "elem_sort"):
+                    new.elem_sort = obj.elem_sort
                 it.assign(_as_store(recv), new, env)
                 return None
             return Builtin("list.append", append)
